@@ -6,7 +6,7 @@
    the regenerated summary of the constructor the predicate's DSL path is wired to. *)
 From Coq Require Import List ZArith Bool String Lia.
 From RG.Base Require Import Outcome.
-From RG.Filters Require Import ExprFacts FilterIR FilterAlgebra Predicates FilterEval FileFacts ValueSources.
+From RG.Filters Require Import ExprFacts FilterIR FilterAlgebra Predicates FilterEval FileFacts ValueSources LoaderState.
 From RGW Require Import Gen_FilterTables Gen_FilterPreds Inst_C02.
 Import ListNotations.
 Local Open Scope string_scope.
@@ -188,6 +188,13 @@ Example c02_demo_grouped_results :
   find_sink (return_parent (Some 1%nat) [NOtherNode; NFunc true [(1%nat, "string"); (2%nat, "int")]; NOtherNode; NFunc false [(2%nat, "error"); (1%nat, "int")]]) = "int" /\
   find_sink (return_parent (Some 0%nat) [NOtherNode; NOtherNode]) = no_sink.
 Proof. repeat split. Qed.
+
+(* ---------------------------------------------------------------- a predicate answers from the match alone *)
+(* every write of the per-match code to storage that outlives the call is one of the audited three (none of which carries an
+   answer over): no table of facts remembered per type string, per text or per position *)
+Theorem C02_predicates_keep_no_state_between_matches : forall fn x, In (fn, x) gen_run_state -> In (fn, x) doc_run_state.
+Proof. exact (run_state_spec gen_run_state run_state_ok). Qed.
+Print Assumptions C02_predicates_keep_no_state_between_matches.
 
 (* ---------------------------------------------------------------- Text: the source bytes of the capture's extent *)
 Theorem C02_text_source_as_audited : value_sources_okb gen_value_sources = true.
